@@ -103,7 +103,11 @@ impl CompactionWorker {
                     "Starting batch processing"
                 );
             }
+            #[cfg(feature = "verif-hooks")]
+            crate::verif_hooks::point("cw.batch_start", batch_idx as u64);
             let drained = self.process_batch(batch).await?;
+            #[cfg(feature = "verif-hooks")]
+            crate::verif_hooks::point("cw.batch_done", batch_idx as u64);
             all_drained_segments.extend(drained);
         }
 
@@ -119,6 +123,8 @@ impl CompactionWorker {
                 );
             }
             self.handover.schedule_reclaim(all_drained_segments);
+            #[cfg(feature = "verif-hooks")]
+            crate::verif_hooks::point("cw.reclaim_scheduled", self.shard_id as u64);
         } else {
             if tracing::enabled!(tracing::Level::DEBUG) {
                 debug!(
@@ -168,6 +174,8 @@ impl CompactionWorker {
             .run()
             .await
             .map_err(|e| CompactorError::ZoneWriter(e.to_string()))?;
+        #[cfg(feature = "verif-hooks")]
+        crate::verif_hooks::point("cw.output_written", batch.uid_plans[0].output_segment_id as u64);
 
         // Prepare new entries for handover
         // When multiple UIDs are compacted from the same input segments,
